@@ -1,13 +1,14 @@
 // package-dir: pkg/engine
 // property: C08
 // bound: two vectors a, b in one Euclidean float32 index; the metadata field "f" of each is one of
-//        {absent, "red", "blue", 5, 7, true, false, ["red"], ["red","blue"], int 5} (100 states: values as a
+//        {absent, "red", "blue", 5, 7, true, false, ["red"], ["red","blue"], int 5, "salt AND pepper"} (121 states: values as a
 //        JSON client sends them, numbers being float64, plus the Go int 5 an embedding program may pass); 14 single-comparison filters over f (=, != on strings,
-//        numbers and booleans; <, <=, >, >= on numbers); each state is read live, after a clean restart
+//        numbers and booleans; <, <=, >, >= on numbers) and 8 compound ones (AND / OR in both cases, precedence,
+//        a connective inside a quoted value); each state is read live, after a clean restart
 //        from the log, after a snapshot + restart, and after compression to float16; plus histories of
-//        vector a next to a fixed b (f = 7): for every (previous, final) pair out of 12 values (the 10 above,
+//        vector a next to a fixed b (f = 7): for every (previous, final) pair out of 13 values (the 11 above,
 //        the strings "5" and "true" that print like a number / a boolean) the final state is reached by an
-//        in-place update (VSetMetadata), by delete + re-add, and a is deleted for good (432 histories),
+//        in-place update (VSetMetadata), by delete + re-add, and a is deleted for good (494 histories),
 //        each compared live and after a restart with an index that reached the same metadata directly
 // rule: for every (state, filter) the ids VFilter returns live must equal the reference evaluation of the
 //        filter on the current metadata (string / boolean / numeric equality, list membership, numeric
@@ -34,7 +35,7 @@ import (
 )
 
 func TestGovcBounded(t *testing.T) {
-	values := []any{nil, "red", "blue", 5.0, 7.0, true, false, []any{"red"}, []any{"red", "blue"}, int(5)}
+	values := []any{nil, "red", "blue", 5.0, 7.0, true, false, []any{"red"}, []any{"red", "blue"}, int(5), "salt AND pepper"}
 	type flt struct {
 		text string
 		eval func(v any) bool // reference semantics on the value of f (nil = field absent)
@@ -88,6 +89,19 @@ func TestGovcBounded(t *testing.T) {
 		{"f > 5", num(">", 5)}, {"f >= 7", num(">=", 7)}, {"f >= 5", num(">=", 5)},
 		{"f = true", eqBool(true)}, {"f = false", eqBool(false)}, {"f != true", not(eqBool(true))}, {"f <= 7", num("<=", 7)},
 	}
+	// compound expressions: OR binds weaker than AND; a connective inside a quoted value is text
+	or := func(a, b func(any) bool) func(any) bool { return func(v any) bool { return a(v) || b(v) } }
+	and := func(a, b func(any) bool) func(any) bool { return func(v any) bool { return a(v) && b(v) } }
+	filters = append(filters,
+		flt{"f = 'red' OR f = 5", or(eqStr("red"), num("=", 5))},
+		flt{"f != 'red' AND f != 5", and(not(eqStr("red")), not(num("=", 5)))},
+		flt{"f = 'red' OR f >= 5 AND f < 7", or(eqStr("red"), and(num(">=", 5), num("<", 7)))},
+		flt{"f >= 5 AND f < 7 OR f = true", or(and(num(">=", 5), num("<", 7)), eqBool(true))},
+		flt{"f = 'blue' or f = 7 and f != 5", or(eqStr("blue"), and(num("=", 7), not(num("=", 5))))},
+		flt{"f = 'salt AND pepper'", eqStr("salt AND pepper")},
+		flt{"f = \"salt AND pepper\" OR f = 'red'", or(eqStr("salt AND pepper"), eqStr("red"))},
+		flt{"f != 'salt AND pepper' AND f != 'red'", and(not(eqStr("salt AND pepper")), not(eqStr("red")))},
+	)
 	explored, violations, nontrivial, samples := 0, 0, 0, 0
 	perKind := map[string]int{}
 	report := func(kind string, va, vb any, filter string, want, got []string) {
